@@ -468,8 +468,11 @@ def run_realobs(sc):
         dep.origin.dependents.add(dep)
         dep.check()
         alive0 = obs.is_alive()
-        # another process creates its token file: open() ...
+        # another process (a live job process stands for it) creates its token file: open() ...
+        import subprocess
         other = FakeJob(1, root)
+        sleeper = subprocess.Popen([sys.executable, "-c", "import time; time.sleep(60)"])
+        other.basepath.with_suffix(".pid").write_text(json.dumps({"type": "local", "pid": sleeper.pid}))
         f = root / "tok" / "j1.token"
         fp = f.open("wt")
         time.sleep(sc.get("gap", 0.5))
@@ -478,14 +481,23 @@ def run_realobs(sc):
         fp.write("1\n%s\n" % other.basepath)
         fp.close()
         time.sleep(0.5)
-        # the observer (if alive) has cached the foreign file; our process recounts (a start attempt fails)
+        # our process recounts (as a start attempt would) and its job has to wait
         with tok.lock, tok.ipc_lock:
             tok._update()
         dep.check()
         st_held = dep.currentstatus.name
         avail_held = int(tok.available)
-        # the other process releases
-        f.unlink()
+        # the other job ends and its scheduler releases
+        sleeper.kill()
+        sleeper.wait()
+        try:
+            other.basepath.with_suffix(".pid").unlink()
+        except FileNotFoundError:
+            pass
+        try:
+            f.unlink()
+        except FileNotFoundError:
+            pass
         deadline = time.time() + sc.get("wait", 3.0)
         while time.time() < deadline and dep.currentstatus != DependencyStatus.OK:
             time.sleep(0.05)
